@@ -272,6 +272,16 @@ func (k checker) ladder() {
 					k.one(s, skey, sh, op, p)
 				}
 			}
+			if n == sizes[len(sizes)-1] {
+				// the top rung also with the process limited to three processors (default two)
+				c.WithProcs(3, func() {
+					for _, op := range ml.Alphabet {
+						for _, p := range op.Variants(sh, false) {
+							k.one(s, skey, sh, op, p)
+						}
+					}
+				})
+			}
 		}
 	}
 }
